@@ -39,7 +39,10 @@ Atoms == << <<97>>, <<90>>, <<32>>, <<35>>, <<34>>, <<39>>, <<44>>, <<233>>, <<8
             <<92, 110>>, <<92, 116>>, <<92, 92>>, <<92, 39>>, <<92, 34>>, <<92, 120, 52, 49>>, <<92, 120, 101, 57>>,
             <<92, 49, 48, 49>>, <<92, 48>>, <<40>>, <<41>>,
             \* characters some text tools take for line ends: form feed, NEL, LINE SEPARATOR (they are text like any other)
-            <<12>>, <<133>>, <<8232>> >>
+            <<12>>, <<133>>, <<8232>>,
+            \* text that is not in Unicode normal form C / changes under case mapping: COMBINING ACUTE ACCENT (after a letter),
+            \* ANGSTROM SIGN, LATIN CAPITAL LETTER I WITH DOT ABOVE - a string is emitted as written, never normalised
+            <<769>>, <<8491>>, <<304>> >>
 
 NatWidth(n) == IF n \in {"l", "L"} THEN 8 ELSE FmtWidth(n)
 VARIABLES kind, name, val, str
